@@ -3,6 +3,7 @@
 History + executable model (M3) with the cache shadow (M2) recording
 hit/miss.  See DESIGN.md §4 C01."""
 import copy
+import os
 import warnings
 
 import numpy as np
@@ -114,6 +115,12 @@ def run(ctx):
 
 class _EndCase(Exception):
     pass
+
+
+class _SwitchTo(Exception):
+    def __init__(self, obj):
+        Exception.__init__(self)
+        self.obj = obj
 
 
 def rejected_changes(ctx, obj, m, S):
@@ -297,6 +304,72 @@ def one_case(ctx, sub, r, cid, max_hist, nq, call, agree, qcache, SC, S,
         return ("on-a-clone:" + how, mut)
     muts += [_on_a_clone("copy()"), _on_a_clone("deepcopy"),
              _on_a_clone("pickle")]
+
+    def _as_argument(o, mm, rr):
+        # the object handed to a generator / converter as an argument: they
+        # return new networks, the argument is what it was
+        if not hasattr(o, "cross_link_density") or int(o.N) < 4:
+            raise S.Skip()
+        from pyunicorn.core import InteractingNetworks as _IN, Network as _N
+        n_ = int(o.N)
+        pr = rr.permutation(n_)
+        c_ = int(rr.integers(1, n_ - 1))
+        g1, g2 = sorted(pr[:c_].tolist()), sorted(pr[c_:].tolist())
+        np.random.seed(int(rr.integers(1 << 30)))
+        for f, kw in ((_IN.RandomlySetCrossLinks_sparse,
+                       {"number_cross_links": int(rr.integers(
+                           0, len(g1) * len(g2) + 1))}),
+                      (_IN.RandomlySetCrossLinks,
+                       {"cross_link_density": 0.5})):
+            # (RandomlyRewireCrossLinks is left out: its rejection loop does
+            #  not end when no admissible swap exists - see C17)
+            try:
+                f(o, g1, g2, **kw)
+            except Exception:  # noqa: not defined for this network
+                ctx.count("argument_use_refused")
+        try:
+            _N.FromIGraph(o.graph).degree()
+        except Exception:  # noqa
+            pass
+        ctx.count("used_as_an_argument")
+        return mm
+    muts.append(("as-an-argument", _as_argument))
+
+    def _continue_on(how):
+        # the history continues on a clone of the object (deep copy, pickle
+        # round trip, for plain networks also save -> Load and FromIGraph on
+        # its graph): the clone is in the same state
+        def mut(o, mm, rr):
+            import pickle
+            import tempfile
+            from pyunicorn.core import Network as _N
+            try:
+                if how == "deepcopy":
+                    c = copy.deepcopy(o)
+                elif how == "pickle":
+                    c = pickle.loads(pickle.dumps(o))
+                else:
+                    if type(o) is not _N:
+                        raise S.Skip()
+                    if how == "FromIGraph":
+                        c = _N.FromIGraph(o.graph.copy(), silence_level=3)
+                    else:
+                        fmt = str(rr.choice(["graphml", "gml", "pickle"]))
+                        fn = os.path.join(tempfile.mkdtemp(
+                            dir=os.environ.get("PVM_TMP")), "n." + fmt)
+                        o.save(fn, fileformat=fmt)
+                        c = _N.Load(fn, fileformat=fmt, silence_level=3)
+            except S.Skip:
+                raise
+            except Exception:  # noqa
+                ctx.count("clone_not_possible:" + how)
+                raise S.Skip()
+            ctx.count("continued_on_a_clone:" + how)
+            raise _SwitchTo(c)
+        return ("continue-on:" + how, mut)
+    # (FromIGraph on the object's own graph is no clone: the node weights
+    #  are written to the graph only when it is saved)
+    muts += [_continue_on(h) for h in ("deepcopy", "pickle", "save-Load")]
     hist = []
     L = int(r.integers(1, max_hist + 1))
     applied = []          # (mutator index, seed of its private rng)
@@ -319,6 +392,9 @@ def one_case(ctx, sub, r, cid, max_hist, nq, call, agree, qcache, SC, S,
             continue
         except _EndCase:
             return
+        except _SwitchTo as sw:
+            obj = sw.obj
+            m2 = m
         except Exception as e:  # noqa
             ctx.violation(f"{sub.name}:<mutator>:{mname}:raises:"
                           f"{type(e).__name__}",
